@@ -66,20 +66,21 @@ Load(pairs, its, table) ==
 \* a load with mismatched slice lengths fails and changes nothing
 FailedLoad == UNCHANGED mvars
 
+NoVal == "absent"     \* placeholder value of a miss (values are opaque to the model)
 \* Get(probe) given the slot the probe hashes to: [ok, v].  The scan starts at the first item of the slot
 \* and stops at the first item of another slot or at the end of the items.
 RECURSIVE Scan(_, _, _, _)
 Scan(its, j, slot, probe) ==
-  IF j > Len(its) \/ its[j].slot # slot THEN [ok |-> FALSE, v |-> 0]
+  IF j > Len(its) \/ its[j].slot # slot THEN [ok |-> FALSE, v |-> NoVal]
   ELSE IF its[j].key = probe THEN [ok |-> TRUE, v |-> its[j].v]
   ELSE Scan(its, j + 1, slot, probe)
 ImplGet(its, table, isloaded, probe, slot) ==
-  IF ~isloaded THEN [ok |-> FALSE, v |-> 0]                          \* never loaded: absent, not a failure
+  IF ~isloaded THEN [ok |-> FALSE, v |-> NoVal]                      \* never loaded: absent, not a failure
   ELSE LET i == table[slot] IN
-       IF i < 0 THEN [ok |-> FALSE, v |-> 0] ELSE Scan(its, i + 1, slot, probe)
+       IF i < 0 THEN [ok |-> FALSE, v |-> NoVal] ELSE Scan(its, i + 1, slot, probe)
 
 AbsGet(m, probe) == IF \E p \in m : p[1] = probe THEN [ok |-> TRUE, v |-> (CHOOSE p \in m : p[1] = probe)[2]]
-                    ELSE [ok |-> FALSE, v |-> 0]
+                    ELSE [ok |-> FALSE, v |-> NoVal]
 
 \* Invariants of the table
 TableOK ==
